@@ -422,6 +422,17 @@ pub fn c12_worlds(tier: Tier) -> Vec<WorldSpec> {
         s.name = format!("{} x{} E={} D={}", s.name, probes, e, d);
         v.push(s);
     }
+    // a sink may also dispose a sibling from inside its handlers and, once told the end, attach a
+    // new sink from inside that handler (after the end means after the end began)
+    for probes in 2..=3u8 {
+        let (e, d) = if q(tier) { (5, 2) } else { (6, 3) };
+        let mut s = spec(Op::Share, e, d);
+        s.cfg.max_probes = probes;
+        s.cfg.no_nested_emit = true;
+        s.cfg.cross_dispose = true;
+        s.name = format!("{} x{} cross E={} D={}", s.name, probes, e, d);
+        v.push(s);
+    }
     v
 }
 
